@@ -3,6 +3,7 @@ package face
 import (
 	"bufio"
 	"errors"
+	"fmt"
 	"io"
 	"net"
 	"sync"
@@ -10,6 +11,9 @@ import (
 
 	enc "github.com/named-data/ndnd/std/encoding"
 )
+
+// maxStreamPacketSize is the largest TLV-LENGTH accepted from the stream (the maximum NDN packet size)
+const maxStreamPacketSize = 8800
 
 type StreamFace struct {
 	network string
@@ -47,6 +51,14 @@ func (f *StreamFace) Run() {
 		}
 		l0 := t.EncodingLength()
 		l1 := l.EncodingLength()
+		// The length comes from the network: never allocate more than an NDN packet can be
+		if uint64(l) > maxStreamPacketSize {
+			err = f.onError(fmt.Errorf("received TLV block of %d bytes, larger than the maximum packet size", uint64(l)))
+			if err != nil {
+				break
+			}
+			continue
+		}
 		buf := make([]byte, l0+l1+int(l))
 		t.EncodeInto(buf)
 		l.EncodeInto(buf[l0:])
